@@ -10,8 +10,9 @@ correspondence : the recurrences of cg, cr, cgne, cgnr, steepest_descent, minima
                  ext_gmres_hh, ext_fgmres) vs the callback iterates, same tolerance.
 search         : every public solver vs the SPECIFICATION-level minimiser, computed without any recurrence:
                  exact G-orthogonal projection on the power basis of the (preconditioned) Krylov space over
-                 Rat / Gaussian rationals (op `c07_krylov_argmin`, Model/C07Argmin.lean; the result is
-                 re-checked exactly against the Galerkin conditions defining the minimiser), compared with
+                 Rat / Gaussian rationals (op `c07_krylov_argmin`, complex: `ext_c07c_argmin`, Model/C07Argmin.lean;
+                 the result is re-checked exactly against the Galerkin conditions defining the minimiser by checkers
+                 proved sound: certV real, certVH complex, Model/ExtC07CCert.lean), compared with
                  the k-th iterate in the promised norm for every k <= n; monotonicity of that norm; solved in
                  at most n steps; exact line search of every steepest-descent / minimal-residual step;
                  restarted GMRES cycles; prefix runs (maxiter = k); flexible GMRES with a preconditioner
@@ -49,12 +50,16 @@ META = {
         'restarted (ext_gmres_restart); gmres_mgs_optimal_krylov / gmres_restart_optimal (+ residual monotonicity across '
         'restarts) are proved for exact square roots (real case), fewer than n inner iterations per cycle, no breakdown; '
         'k = n and the reorth option are search only',
-        'complex systems: the recurrence models run on Gaussian rationals and are compared with the code; the optimality '
-        'theorems are stated over ordered fields (real case); the complex minimisers are checked by the unverified list '
-        'version of the certificate test',
+        'complex systems, GMRES variants only: the executable GMRES/FGMRES models are real (binary64; the Gaussian '
+        'rationals have no square root), so complex gmres/fgmres iterates are judged by the search alone; proved for them: '
+        'the Hermitian least-squares characterisation (complex_gmres_optimal_of_qr / _of_least_squares: orthonormal '
+        'Arnoldi basis + unitary triangularisation + solved triangular system => residual-optimal over x0 + span{z_j}) '
+        'and the soundness of the oracle certificate (complex_argmin_certificate_sound, op ext_c07c_argmin: Hermitian '
+        'test of the Gram matrix + conjugating Vector checker). [cg, cr, cgnr, cgne, steepest_descent, minimal_residual '
+        'on complex systems are no longer search only: complex_cg_optimal ... complex_mr_exact_line_search are about '
+        'the Gaussian-rational terms op c07_iter evaluates]',
         'flexible GMRES with a varying preconditioner: dense NumPy least-squares oracle over the recorded directions '
         '(search) next to the model correspondence (ext_fgmres with the preconditioners used cyclically)',
-        'preconditioned CR with a preconditioner commuting with A (alpha I + beta A): search only (cr_optimal is M = I)',
         'bicgstab: the property promises no minimiser; "solved within n steps" is only counted (feature bicgstab-solved), '
         'never judged',
         'monotonicity and n-step termination in binary64 (theorems: exact arithmetic)',
@@ -72,6 +77,11 @@ META = {
         'condition number of the (preconditioned) operator <= min(100, 10^(12/n)): conjugate-gradient type recurrences '
         'lose about eps*kappa^(n/2) of the optimality after n steps in binary64 (measured: 9e-9 at kappa = 100, n = 8)',
         'A (and M) Hermitian positive definite where the method requires it: part of the generators',
+        'preconditioned CR: the theorems (cr_commuting_preconditioner_optimal, complex_cr_optimal) assume M A = A M; the '
+        'generator family M = alpha I + beta A satisfies it exactly (dyadic entries), `commutes(s)` tests it per instance; '
+        'a non-commuting M is the known finding cr-noncommuting-preconditioner',
+        'positive semidefiniteness of the Gram matrix handed to the complex certificate checker: G = A (kind cg, HPD by '
+        'the generator) or G = B^H B (gram_matrix_psd); its Hermitian symmetry is tested exactly by the driver (isHermL)',
     ],
 }
 
@@ -443,6 +453,10 @@ def _vec(v, cplx):
 
 
 def argmin_line(kind, s, cplx, x0, k):
+    if cplx:
+        # complex case: same oracle, certificate re-checked by the checker proved sound in Proofs/ExtC07CCert.lean
+        # (conjugating Vector operations; the Gram matrix must be exactly Hermitian)
+        return f'ext_c07c_argmin {kind} {_mat(s.A, cplx)} {_mat(s.Md, cplx)} {_vec(s.b, cplx)} {_vec(x0, cplx)} {k}'
     return f'c07_krylov_argmin {kind} {"c" if cplx else "r"} {_mat(s.A, cplx)} {_mat(s.Md, cplx)} {_vec(s.b, cplx)} {_vec(x0, cplx)} {k}'
 
 
